@@ -163,8 +163,9 @@ func c15Events(code *gojq.Code, v any, maxOut int, budget time.Duration) (evs []
 	}
 }
 
-// c15Lib: the library on the same parsed inputs. mode: "docs" (each document), "slurp" (the array), "null".
-func c15Lib(query, stdin, mode string, maxOut int, budget time.Duration) vlib.M {
+// c15Lib: the library on the same parsed inputs: on every document, on null (-n) and on the array of all
+// documents (-s). Which of these the command uses is the specification's business.
+func c15Lib(query, stdin string, maxOut int, budget time.Duration) vlib.M {
 	res := vlib.M{}
 	merge := func(f vlib.M) {
 		for k, v := range f {
@@ -184,7 +185,8 @@ func c15Lib(query, stdin, mode string, maxOut int, budget time.Duration) vlib.M 
 		}
 		docs = append(docs, v)
 	}
-	res["ndocs"], res["bad"] = len(docs), bad
+	res["bad"] = bad
+	res["docs"], res["onull"], res["oslurp"] = []any{}, []any{}, []any{}
 	q, err := gojq.Parse(query)
 	if err != nil {
 		res["query"] = "parse"
@@ -196,31 +198,25 @@ func c15Lib(query, stdin, mode string, maxOut int, budget time.Duration) vlib.M 
 		return res
 	}
 	res["query"] = "ok"
-	res["docs"], res["one"] = []any{}, []any{}
-	switch mode {
-	case "null":
-		evs, f := c15Events(code, nil, maxOut, budget)
-		res["one"] = evs
+	evs, f := c15Events(code, nil, maxOut, budget)
+	res["onull"] = evs
+	merge(f)
+	if !bad {
+		evs, f := c15Events(code, docs, maxOut, budget)
+		res["oslurp"] = evs
 		merge(f)
-	case "slurp":
-		if !bad {
-			evs, f := c15Events(code, docs, maxOut, budget)
-			res["one"] = evs
-			merge(f)
-		}
-	default:
-		runs := []any{}
-		for _, d := range docs {
-			evs, f := c15Events(code, d, maxOut, budget)
-			runs = append(runs, evs)
-			merge(f)
-		}
-		res["docs"] = runs
 	}
+	runs := []any{}
+	for _, d := range docs {
+		evs, f := c15Events(code, d, maxOut, budget)
+		runs = append(runs, evs)
+		merge(f)
+	}
+	res["docs"] = runs
 	return res
 }
 
-// cmdC15Run: cases {id, argv:[...], stdin:"...", lib?:{query, mode}} ->
+// cmdC15Run: cases {id, argv:[...], stdin:"...", lib?:{query}} ->
 // records {id, obs:{stdout, stderr, exit | timeout ...}, lib?:{...}}.
 func cmdC15Run(args []string) error {
 	fs := flag.NewFlagSet("c15run", flag.ExitOnError)
@@ -246,7 +242,7 @@ func cmdC15Run(args []string) error {
 		stdin, _ := c["stdin"].(string)
 		rec := vlib.M{"id": c["id"], "obs": c15Exec(*bin, argv, stdin, *tmo)}
 		if l, ok := c["lib"].(map[string]any); ok {
-			rec["lib"] = c15Lib(l["query"].(string), stdin, l["mode"].(string), *maxOut, *budget)
+			rec["lib"] = c15Lib(l["query"].(string), stdin, *maxOut, *budget)
 		}
 		recs[i] = rec
 	})
